@@ -15,9 +15,9 @@ RULE = ('case = (shape: 1-4 factor measures x 1-5 points, weights incl. zeros, p
 ASSUMPTIONS = ['point masses are compared by (position, weight)', 'statistics compared with rel 1e-9',
                'update() is exercised with parameter vectors that cover whole leading factor measures (the documented layout)']
 CLASSES = {
-    'roundtrip': {'quick': 27000, 'thorough': 150000},
-    'structure': {'quick': 21600, 'thorough': 125000},
-    'setters': {'quick': 10800, 'thorough': 60000},
+    'roundtrip': {'quick': 27000, 'thorough': 270000},
+    'structure': {'quick': 21600, 'thorough': 216000},
+    'setters': {'quick': 10800, 'thorough': 108000},
 }
 MIN_EVENTS = {'quick': {'assert:roundtrip': 8000, 'assert:structure': 6000, 'assert:setter': 1500}}
 
